@@ -163,7 +163,8 @@ def tsan_reports(stderr, transport_phase=False):
             # the other party may be any code that frees or reuses it (another instance's destructor, the allocator).
             # Only the transport phase of the exploration can produce such reports: the strict phase runs no TRANSPORT job.
             known = re.search(re.escape(src) + r"phreeqcpp/transport\.cpp:\d+", blk) is not None
-            if not known and transport_phase and kind in ("heap-use-after-free", "double-free", "attempting double-free", "use of an invalid pointer"):
+            # (heap-use-after-free, double free, or a plain data race on the list nodes: the same cross-instance PHRQ_free)
+            if not known and transport_phase:
                 restored = [x for x in raw_inner if x]
                 known = bool(restored) and all(x == "phqalloc.cpp" for x in restored)
         out.append({"kind": kind, "globals": globs, "top": top, "known": known, "text": blk.strip()[:6000]})
